@@ -19,10 +19,21 @@ def build_scheduler(name, seed, mode):
     if name == "fifo_random":
         from syne_tune.optimizer.schedulers.fifo import FIFOScheduler
         return FIFOScheduler(space, searcher="random", **kw)
-    if name in ("hyperband_stopping", "hyperband_promotion"):
+    if name in ("hyperband_stopping", "hyperband_promotion", "hyperband_pasha", "hyperband_rush_promotion",
+                "hyperband_cost_promotion"):
         from syne_tune.optimizer.schedulers.hyperband import HyperbandScheduler
-        return HyperbandScheduler(space, searcher="random", type=name.split("_")[1], resource_attr="epoch", max_t=MAX_T,
-                                  grace_period=1, reduction_factor=3, **kw)
+        typ = name[len("hyperband_"):]
+        extra = {}
+        if typ == "rush_promotion":
+            extra = dict(rung_system_kwargs={"num_threshold_candidates": 1}, points_to_evaluate=[{"x": 3, "lr": 0.3}])
+        if typ == "cost_promotion":
+            extra = dict(cost_attr="st_worker_cost")
+        return HyperbandScheduler(space, searcher="random", type=typ, resource_attr="epoch", max_t=MAX_T,
+                                  grace_period=1, reduction_factor=3, brackets=1 + seed % 2, **extra, **kw)
+    if name == "dehb":
+        from syne_tune.optimizer.schedulers.synchronous import GeometricDifferentialEvolutionHyperbandScheduler
+        return GeometricDifferentialEvolutionHyperbandScheduler(space, resource_attr="epoch", max_resource_level=MAX_T,
+                                                                grace_period=1, reduction_factor=3, **kw)
     if name == "median_rule":
         from syne_tune.optimizer.schedulers.fifo import FIFOScheduler
         from syne_tune.optimizer.schedulers.median_stopping_rule import MedianStoppingRule
@@ -39,7 +50,11 @@ def build_scheduler(name, seed, mode):
     raise ValueError(name)
 
 
-SCHEDULERS = ["fifo_random", "hyperband_stopping", "hyperband_promotion", "median_rule", "pbt", "sync_hyperband"]
+SCHEDULERS = ["fifo_random", "hyperband_stopping", "hyperband_promotion", "hyperband_pasha", "hyperband_rush_promotion",
+              "hyperband_cost_promotion", "median_rule", "pbt", "sync_hyperband", "dehb"]
+# the synchronous family aborts runs after ordinary failures (known findings F-C13-2 / F-C13-3, property C13):
+# failures are switched off for it here so that this stream judges C01 / C12 only
+NO_FAILURES = ("sync_hyperband", "dehb")
 
 
 def gen_real_case(rng):
@@ -51,6 +66,8 @@ def gen_real_case(rng):
                    dt=rng.choice([0.0, 1.0]), max_epochs=MAX_T, p_complete=0.02,
                    p_fail=rng.choice([0.0, 0.03, 0.1]), p_stop_ext=rng.choice([0.0, 0.02]),
                    p_stopping=rng.choice([0.0, 0.03]))
+    if name in NO_FAILURES:
+        profile.update(p_fail=0.0, p_stop_ext=0.0)
     return dict(kind="real", scheduler=name, mode=rng.choice(["min", "max"]), sched_seed=rng.randrange(1000),
                 params=params, profile=profile, seed=rng.getrandbits(48))
 
@@ -66,8 +83,10 @@ def run_real_case(case):
     return out
 
 
-def run_real(ctx, checker, replay_cases):
-    cases = replay_cases if replay_cases is not None else [gen_real_case(ctx.rng) for _ in range(ctx.n(90, 2500))]
+def run_real(ctx, checker, replay_cases, discipline=False):
+    """discipline=True (C01): also the resume discipline, by the Python checker and by the verified dok_b in Coq."""
+    cases = replay_cases if replay_cases is not None else [gen_real_case(ctx.rng) for _ in range(ctx.n(100, 2500))]
+    traces, reps = [], []
     for case in cases:
         out = run_real_case(case)
         if out["aborted"]:
@@ -84,6 +103,22 @@ def run_real(ctx, checker, replay_cases):
                 ctx.h("real_decisions", ev[3])
             elif ev[0] == "s_suggest":
                 ctx.h("real_suggest", "none" if ev[2] is None else ev[2][0])
-        for what, sig in checker(case["params"], out):
+        problems = checker(case["params"], out)
+        if discipline:
+            py_bad = tc.check_discipline(out, case["scheduler"])
+            problems = problems + py_bad
+            traces.append(out["trace"])
+            reps.append((rep, case["scheduler"], bool(py_bad)))
+        for what, sig in problems:
             sig = dict(sig, scheduler=case["scheduler"])
             ctx.violation("property", "[%s] %s" % (case["scheduler"], what), case=rep, signature=sig)
+    if discipline and traces:
+        bad = set(tc.coq_discipline(ctx, "disc", traces))
+        for i, (rep, name, py_bad) in enumerate(reps):
+            if (i in bad) and not py_bad:
+                ctx.violation("property", "[%s] the verified checker dok_b rejects the trace: the scheduler breaks the "
+                              "resume discipline" % name, case=rep,
+                              signature=dict(check="resume_discipline", scheduler=name, by="dok_b"))
+            elif py_bad and i not in bad:
+                ctx.violation("correspondence", "Python discipline checker and dok_b disagree on a trace of %s" % name,
+                              case=rep, failing_input=False, broken="correspondence chk_disc (dok_b)")
